@@ -14,7 +14,7 @@ from .csrc import ExtractError
 
 # rules whose case body is translated into the IR and proved equal to the Op.step case in Peg/TieSkel.lean
 IR_RULES = ["RULE_IF", "RULE_IFNOT", "RULE_NOT", "RULE_DROP", "RULE_ONLY_TAGS", "RULE_SUB", "RULE_ACCUMULATE", "RULE_CAPTURE",
-            "RULE_POSITION", "RULE_CONSTANT"]
+            "RULE_POSITION", "RULE_CONSTANT", "RULE_GROUP", "RULE_NTH", "RULE_ERROR"]
 
 
 class Unsupported(Exception):
@@ -123,7 +123,8 @@ def parse_case(text):
 
 # ------------------------------------------------------------------------------------------------ IR extraction
 _CASTS = {"int32_t", "uint32_t", "int", "double", "size_t", "int64_t", "uint64_t", "void"}
-_TYPES = {"uint32_t", "int32_t", "int", "uint8_t", "Janet", "CapState", "double", "size_t", "uint64_t", "int64_t"}
+_TYPES = {"uint32_t", "int32_t", "int", "uint8_t", "Janet", "CapState", "double", "size_t", "uint64_t", "int64_t", "JanetArray",
+          "LineCol"}
 
 
 def strip_casts(toks):
@@ -188,11 +189,18 @@ class Extract:
         self.rule = {}                # alias -> k  (s->bytecode + rule[k])
         self.oldmode = None
         self.pending_rule = None      # `rule = s->bytecode + rule[k];` waiting for `goto tail`
+        self.num = {}                 # int32_t locals -> index
+        self.clamped = set()          # word aliases clamped to INT32_MAX
+        self.arr = {}                 # JanetArray under construction: name -> dict(n=, cs=)
+        self.posalias = {}            # int32_t x = PTR - s->text_start  -> pointer index
+        self.lc = {}                  # LineCol x = get_linecol_from_position(s, posalias) -> pointer index
 
     def clone(self):
         e = Extract()
         e.ptr, e.cs, e.val, e.word, e.rule = dict(self.ptr), dict(self.cs), dict(self.val), dict(self.word), dict(self.rule)
         e.oldmode, e.pending_rule = self.oldmode, self.pending_rule
+        e.num, e.clamped, e.posalias, e.lc = dict(self.num), set(self.clamped), dict(self.posalias), dict(self.lc)
+        e.arr = {k: dict(v) for k, v in self.arr.items()}
         return e
 
     # -- expressions
@@ -208,12 +216,21 @@ class Extract:
 
     def word_k(self, toks):
         toks = unparen(toks)
+        if len(toks) == 1 and toks[0] in self.clamped:
+            raise Unsupported("clamped operand `%s` used as a plain operand" % toks[0])
         if len(toks) == 1 and toks[0] in self.word:
             return self.word[toks[0]]
         m = re.fullmatch(r"rule \[ (\d+) \]", " ".join(toks))
         if m:
             return int(m.group(1))
         raise Unsupported("operand expression `%s`" % " ".join(toks))
+
+    def we(self, toks):
+        """operand word expression -> WE source"""
+        toks = unparen(toks)
+        if len(toks) == 1 and toks[0] in self.clamped:
+            return "(.clamp %d)" % self.word[toks[0]]
+        return "(.op %d)" % self.word_k(toks)
 
     def ptr_of(self, toks):
         toks = unparen(toks)
@@ -249,6 +266,9 @@ class Extract:
         m = re.fullmatch(r"s -> constants \[ (.*) \]", s)
         if m:
             return "(.const %d)" % self.word_k(toks[4:-1])
+        m = re.fullmatch(r"s -> captures -> data \[ (\w+) \. cap \+ (\w+) \]", s)
+        if m and m.group(1) in self.cs:
+            return "(.capAt %d %s)" % (self.cs[m.group(1)], self.we([m.group(2)]))
         raise Unsupported("value expression `%s`" % s)
 
     def cond(self, toks):
@@ -326,6 +346,12 @@ class Extract:
             return ".curAcc" if positive else ('not', ".curAcc")
         if s == "s -> has_backref":
             return ".hasBackref"
+        m = re.fullmatch(r"(\w+) > (\w+)", s)
+        if m and m.group(1) in self.num and m.group(2) in self.word:
+            return ".numGtWord %d %s" % (self.num[m.group(1)], self.we([m.group(2)]))
+        m = re.fullmatch(r"s -> captures -> count > (\w+)", s)
+        if m and m.group(1) in self.num:
+            return ".countGtNum %d" % self.num[m.group(1)]
         raise Unsupported("condition `%s`" % s)
 
     # -- statements
@@ -341,6 +367,42 @@ class Extract:
             return [".up"]
         if len(toks) == 1:            # `(void) x;`
             return []
+        if len(toks) == 2 and toks[0] == "Janet" and re.fullmatch(r"\w+", toks[1]):      # `Janet cap;`
+            if toks[1] not in self.val:
+                self.val[toks[1]] = len(self.val)
+            return []
+        if s == "janet_panicv ( s -> captures -> data [ s -> captures -> count - 1 ] )":
+            return ["!.panicLast"]
+        m = re.fullmatch(r'janet_panicf \( "match error at line %d, column %d" , (\w+) \. line , (\w+) \. col \)', s)
+        if m and m.group(1) == m.group(2) and m.group(1) in self.lc:
+            return ["!(.panicMatchErr %d)" % self.lc[m.group(1)]]
+        m = re.fullmatch(r"LineCol (\w+) = get_linecol_from_position \( s , (\w+) \)", s)
+        if m and m.group(2) in self.posalias:
+            self.lc[m.group(1)] = self.posalias[m.group(2)]
+            return []
+        m = re.fullmatch(r"int32_t (\w+) = (?:\( )?(\w+) - s -> text_start(?: \))?", s)
+        if m and m.group(2) in self.ptr:
+            self.posalias[m.group(1)] = self.ptr[m.group(2)]
+            return []
+        m = re.fullmatch(r"int32_t (\w+) = s -> captures -> count(?: - (\w+) \. cap)?", s)
+        if m and (m.group(2) is None or m.group(2) in self.cs):
+            if m.group(1) not in self.num:
+                self.num[m.group(1)] = len(self.num)
+            return [".numDef %d %s" % (self.num[m.group(1)], ".capCount" if m.group(2) is None else "(.capsAbove %d)" % self.cs[m.group(2)])]
+        # the array idiom of RULE_GROUP: janet_array(n); safe_memcpy(a->data, s->captures->data + cs.cap, sizeof(Janet) * n); a->count = n
+        m = re.fullmatch(r"JanetArray \* (\w+) = janet_array \( (\w+) \)", s)
+        if m and m.group(2) in self.num:
+            self.arr[m.group(1)] = dict(n=m.group(2), cs=None)
+            return []
+        m = re.fullmatch(r"safe_memcpy \( (\w+) -> data , s -> captures -> data \+ (\w+) \. cap , sizeof \( Janet \) \* (\w+) \)", s)
+        if m and m.group(1) in self.arr and self.arr[m.group(1)]["n"] == m.group(3) and m.group(2) in self.cs:
+            self.arr[m.group(1)]["cs"] = m.group(2)
+            return []
+        m = re.fullmatch(r"(\w+) -> count = (\w+)", s)
+        if m and m.group(1) in self.arr and self.arr[m.group(1)]["n"] == m.group(2) and self.arr[m.group(1)]["cs"] is not None:
+            a = self.arr.pop(m.group(1))
+            self.val[m.group(1)] = len(self.val)
+            return [".valDef %d (.arrOf %d %d)" % (self.val[m.group(1)], self.cs[a["cs"]], self.num[a["n"]])]
         # declarations / assignments
         m = re.fullmatch(r"(?:(\w+) )?(\* )?(\w+) = (.*)", s)
         if m and (m.group(1) is None or m.group(1) in _TYPES):
@@ -381,6 +443,8 @@ class Extract:
                     return [".call %d %d %d" % (self.new_ptr(name), k, at)]
                 src = self.ptr_of(rhs)
                 return [".ptrCopy %d %d" % (self.new_ptr(name), src)]
+            if ty is None and not star and name in self.val:
+                return [".valDef %d %s" % (self.val[name], self.vexpr(rhs))]
             if ty is None and name == "rule":
                 self.pending_rule = self.rule_k(rhs)
                 return []
@@ -404,7 +468,10 @@ class Extract:
             if len(args) != 3 or args[0] != ["s"]:
                 raise Unsupported("statement `%s`" % s)
             out = []
-            if len(args[1]) == 1 and args[1][0] in self.val:
+            wrapped = re.fullmatch(r"janet_wrap_array \( (\w+) \)", " ".join(args[1]))
+            if wrapped and wrapped.group(1) in self.val:
+                v = self.val[wrapped.group(1)]
+            elif len(args[1]) == 1 and args[1][0] in self.val:
                 v = self.val[args[1][0]]
             else:
                 v = len(self.val)
@@ -456,6 +523,13 @@ def conv(stmts, ex):
             raise Unsupported("goto %s" % st[1])
         return "(.tail %d)" % ex.pending_rule
     if k == 'if':
+        cs_ = " ".join(strip_casts(st[1]))
+        m = re.fullmatch(r"(\w+) > INT32_MAX", cs_)
+        if m and m.group(1) in ex.word and st[3] is None:
+            body = st[2][1] if st[2][0] == 'block' else [st[2]]
+            if len(body) == 1 and body[0][0] == 'simple' and " ".join(strip_casts(body[0][1])) == "%s = INT32_MAX" % m.group(1):
+                ex.clamped.add(m.group(1))
+                return conv(rest, ex)
         c = ex.cond(st[1])
         a = conv([st[2]] + rest, ex.clone())
         b = conv(([st[3]] if st[3] is not None else []) + rest, ex.clone())
@@ -463,7 +537,11 @@ def conv(stmts, ex):
             c, a, b = c[1], b, a
         return "(.ite %s %s %s)" % (cond_lean(c), a, b)
     out = ex.simple(st[1])
-    tail = conv(rest, ex)
+    if out and out[-1].startswith("!"):
+        tail = out[-1][1:]
+        out = out[:-1]
+    else:
+        tail = conv(rest, ex)
     for s in reversed(out):
         tail = "(.seq (%s) %s)" % (s, tail)
     return tail
